@@ -1,6 +1,7 @@
 /- model driver for C19: one operation per input line, one canonical line out -/
 import Batchie.Model.DriverLoop
+import Batchie.Model.OrchestratorIO
 
 open Batchie
 
-def main : IO Unit := DriverLoop.run []
+def main : IO Unit := DriverLoop.run [Orchestrator.handle]
